@@ -209,7 +209,7 @@ impl<'a> IExec<'a> {
             bal.insert(ci, sup);
         }
         let t = self.toks.len();
-        self.toks.push(Tok { id_bytes: addr_bytes(&taddr), kind: TokKind::Wasm, name: name.to_string(), symbol: symbol.to_string(), decimals, bal, minters, token_id: Some(id), locked: 0, released: 0, supply: sup, flaky: false });
+        self.toks.push(Tok { id_bytes: addr_bytes(&taddr), kind: TokKind::Wasm, name: name.to_string(), symbol: symbol.to_string(), decimals, bal, minters, token_id: Some(id), locked: 0, released: 0, supply: sup, flaky: false, weird: false });
         self.tok_addr.push(taddr.clone());
         self.m.registry.insert(id, (t, true));
         self.m.reg_order.push(id);
@@ -603,7 +603,7 @@ impl<'a> IExec<'a> {
         let expect: Option<&'static str> = match &meta {
             None => Some("token-id-not-registered"),
             Some((n, s, d)) => {
-                if n.is_empty() || s.is_empty() || *d > 255 {
+                if n.is_empty() || s.is_empty() || *d > 255 || reg.map(|(t, _)| self.toks[t].weird).unwrap_or(false) {
                     ctx.count("probe.remote_deploy_unrepresentable_metadata");
                     Some("unrepresentable-metadata")
                 } else if !self.m.trusted.contains(dchain) {
@@ -688,6 +688,23 @@ impl<'a> IExec<'a> {
         ctx.trace_str("set_flaky");
     }
 
+    pub fn do_probe_set_weird(&mut self, ctx: &mut Ctx, tok: u8, mode: u8) {
+        let env = self.sim.env.clone();
+        let t = tok as usize % self.toks.len();
+        if self.toks[t].kind != TokKind::Probe {
+            return;
+        }
+        let taddr = self.tok_addr[t].clone();
+        let r = self.sim.query(&taddr, "set_weird", (1 + mode as u32 % 5,).into_val(&env));
+        if r.is_err() {
+            ctx.harness("probe token refused set_weird".into());
+            return;
+        }
+        ctx.count("F9.canonical_token_answers_a_getter_with_another_type");
+        self.toks[t].weird = true;
+        ctx.trace_str("set_weird");
+    }
+
     /// Remote deployment of a canonical token whose metadata getters answer inconsistently.  What the
     /// "true" metadata is cannot be said, so acceptance and refusal are both fine — but whatever is
     /// announced must itself be representable: a non-empty name and symbol (decimals are a byte on the wire).
@@ -753,6 +770,7 @@ impl<'a> IExec<'a> {
         }
         ctx.count("probe.canonical_token_changed_its_metadata");
         self.toks[t].flaky = false;
+        self.toks[t].weird = false;
         self.toks[t].name = name.to_string();
         self.toks[t].symbol = symbol.to_string();
         self.toks[t].decimals = decimals;
